@@ -141,6 +141,7 @@ func (fsys *FileSystem) InvalidateDB(db *litefs.DB) error {
 	if node == nil {
 		return nil
 	}
+	verifInvalidate(fsys, "data", node, "", 0, -1)
 
 	if err := fsys.server.InvalidateNodeData(node); err != nil && err != fuse.ErrNotCached {
 		return err
@@ -154,6 +155,7 @@ func (fsys *FileSystem) InvalidateDBRange(db *litefs.DB, offset, size int64) err
 	if node == nil {
 		return nil
 	}
+	verifInvalidate(fsys, "data", node, "", offset, size)
 
 	if err := fsys.server.InvalidateNodeDataRange(node, offset, size); err != nil && err != fuse.ErrNotCached {
 		return err
@@ -167,6 +169,7 @@ func (fsys *FileSystem) InvalidateSHM(db *litefs.DB) error {
 	if node == nil {
 		return nil
 	}
+	verifInvalidate(fsys, "data", node, "", 0, -1)
 
 	if err := fsys.server.InvalidateNodeData(node); err != nil && err != fuse.ErrNotCached {
 		return err
@@ -180,6 +183,7 @@ func (fsys *FileSystem) InvalidatePos(db *litefs.DB) error {
 	if node == nil {
 		return nil
 	}
+	verifInvalidate(fsys, "data", node, "", 0, -1)
 
 	if err := fsys.server.InvalidateNodeData(node); err != nil && err != fuse.ErrNotCached {
 		return err
@@ -189,6 +193,7 @@ func (fsys *FileSystem) InvalidatePos(db *litefs.DB) error {
 
 // InvalidateEntry removes the file from the cache.
 func (fsys *FileSystem) InvalidateEntry(name string) error {
+	verifInvalidate(fsys, "entry", fsys.root, name, 0, 0)
 	if err := fsys.server.InvalidateEntry(fsys.root, name); err != nil && err != fuse.ErrNotCached {
 		return err
 	}
@@ -200,6 +205,7 @@ func (fsys *FileSystem) InvalidateLag() error {
 	if node == nil {
 		return nil
 	}
+	verifInvalidate(fsys, "data", node, "", 0, -1)
 
 	if err := fsys.server.InvalidateNodeData(node); err != nil && err != fuse.ErrNotCached {
 		return err
